@@ -20,11 +20,13 @@ def units(tier):
 
 def strategy(tier, unit):
     unitv = st.tuples(S.fl(-1, 1), S.fl(-1, 1), S.fl(-1, 1)).filter(lambda v: sum(x * x for x in v) > 1e-4).map(list)
-    tilt = st.one_of(st.just(0.0), S.fl(-0.5, 0.5), S.fl(-0.5, 0.5), S.fl(-0.5, 0.5))
+    tiny = st.tuples(S.logfl(1e-9, 1e-2), st.sampled_from([-1.0, 1.0])).map(lambda t: t[0] * t[1])
+    tilt = st.one_of(st.just(0.0), S.fl(-0.5, 0.5), S.fl(-0.5, 0.5), S.fl(-0.5, 0.5), tiny)
     return st.fixed_dictionaries({
         "d": unitv, "tthd": S.fl(0.5, 150.0), "chi": tilt, "wedge": tilt, "scale": S.logfl(1e-2, 1e2),
         "near_axis": st.one_of(st.none(), st.none(), st.tuples(S.fl(-8, -1), st.sampled_from([1.0, -1.0])).map(list)),
-        "cell": S.cells(1.0, 50.0), "hkl": S.hkls(6), "rot": S.rot_specs(1), "wl": S.fl(0.05, 0.2)})
+        "cell": S.cells(1.0, 50.0), "hkl": S.hkls(6), "rot": S.rot_specs(1), "wl": S.fl(0.05, 0.2),
+        "prev_rel": st.one_of(st.none(), S.logfl(1e-9, 1e-3))})
 
 
 def check(case, ctx):
@@ -37,7 +39,7 @@ def check(case, ctx):
     d = d / np.linalg.norm(d)
     tth = math.radians(case["tthd"])
     th = tth / 2
-    g = math.sin(th) * d
+    g = O.ro(math.sin(th) * d)
     chi, wedge = case["chi"] + 0.0, case["wedge"] + 0.0
     both = chi != 0 and wedge != 0
     ctx.event("tilts:" + ("both" if both else "chi" if chi else "wedge" if wedge else "none"))
@@ -45,7 +47,7 @@ def check(case, ctx):
     any_two = False
     sols = {}
     for mname, m in (("tools", tools), ("laue", laue)):
-        gg = g if m is tools else g * case["scale"]
+        gg = g if m is tools else O.ro(g * case["scale"])
         solvers = (
             ("find_omega_general", lambda: m.find_omega_general(gg, tth, chi, wedge), lambda o: np.asarray(m.form_omega_mat_general(o, chi, wedge), float)),
             ("find_omega_quart", lambda: m.find_omega_quart(gg, tth, chi, wedge), lambda o: np.asarray(m.quart_to_omega(math.degrees(o), chi, wedge), float)),
@@ -93,7 +95,13 @@ def check(case, ctx):
                     rz = 0.5 * math.sin(tth) * math.cos(e)
                     ctx.near("yz-components/" + name, max(abs(gt[1] - ry), abs(gt[2] - rz)), TOL, "eta/" + name,
                              "%s: (y,z) = (%r,%r), eta=%r requires (%r,%r)" % (tag, gt[1], gt[2], e, ry, rz))
-            sols[(mname, name)] = (om, eta_a, tangent)
+            # conditioning of omega itself: d(omega) ~ eps / sqrt(1-(rhs/amp)^2) / (amp/|g|); large when the two
+            # solutions nearly coincide or when g is nearly parallel to the rotation axis (amp -> 0)
+            if amp < 1e-12:
+                cond = 1e12
+            else:
+                cond = 1.0 / max(math.sqrt(max(1 - min(1.0, (rhs / amp) ** 2), 0.0)), 1e-6) / max(amp / math.sin(th), 1e-6)
+            sols[(mname, name)] = (om, eta_a, tangent, cond)
     ctx.nontrivial(both and any_two)
     # agreement where the tilts coincide
     def same(a, b):
@@ -121,12 +129,13 @@ def check(case, ctx):
                 ctx.fail("agreement-count/" + n, "%s.%s and find_omega_general disagree on the number of solutions at zero tilt" % (mname, n))
             else:
                 # omega from arccos (find_omega) loses precision near 0/pi: compare through the unit vectors
-                ctx.near("agreement/" + n, dd, 1e-7, "agreement/" + n, "%s.%s omegas %r differ from find_omega_general %r" % (mname, n, o2[0].tolist(), ref[0].tolist()))
+                ctx.near("agreement/" + n, dd / max(ref[3], o2[3]), 1e-9, "agreement/" + n, "%s.%s omegas %r differ from find_omega_general %r" % (mname, n, o2[0].tolist(), ref[0].tolist()))
     # find_omega_general(g,2th,0,-w) == find_omega_wedge(g,2th,w)
     for mname, m in (("tools", tools), ("laue", laue)):
         gg = g if m is tools else g * case["scale"]
         og, eg = m.find_omega_general(gg, tth, 0.0, -wedge)
         ow, ew = sols[(mname, "find_omega_wedge")][0:2]
+        cw = sols[(mname, "find_omega_wedge")][3]
         M0, M1, M2 = ((O.Ry(-wedge) @ O.Rz(x)) @ g for x in (0.0, math.pi / 2, math.pi))
         C = (M0[0] + M2[0]) / 2
         amp = math.hypot(M0[0] - C, M1[0] - C)
@@ -136,7 +145,7 @@ def check(case, ctx):
         if dd is None:
             ctx.fail("agreement-count/general(-w)-vs-wedge", "%s: find_omega_general(chi=0,-wedge) and find_omega_wedge(wedge) differ in count" % mname)
         else:
-            ctx.near("agreement/general(-w)=wedge(w)", dd, 1e-7, "agreement/general-vs-wedge", "%s: general(0,-w) %r vs wedge(w) %r" % (mname, list(np.atleast_1d(og)), ow.tolist()))
+            ctx.near("agreement/general(-w)=wedge(w)", dd / cw, 1e-9, "agreement/general-vs-wedge", "%s: general(0,-w) %r vs wedge(w) %r" % (mname, list(np.atleast_1d(og)), ow.tolist()))
     # tth = 2 asin(lambda*stl) = tth2(U.B.hkl, lambda)
     cell = case["cell"]
     G, Gs, V = O.metric(cell)
@@ -146,6 +155,8 @@ def check(case, ctx):
         ref = 2 * math.asin(wl * s)
         U = S.build_rotation(case["rot"])
         for mname, m in (("tools", tools), ("laue", laue)):
+            if case.get("prev_rel") is not None:      # the previous reflection came from a minutely different cell
+                m.tth(S.perturbed(cell, case["prev_rel"]), case["hkl"], wl)
             t1 = m.tth(cell, case["hkl"], wl)
             ctx.near("tth", abs(t1 - ref), 1e-9, "tth", "%s.tth %r != 2 asin(lambda stl) %r" % (mname, t1, ref))
             gv = U @ np.asarray(m.form_b_mat(cell), float) @ np.array(case["hkl"], float)
